@@ -481,7 +481,9 @@ def main(argv):
         log(f"no harness registered for {prop}")
         return 2
     ncpu = os.cpu_count() or 4
-    jobs = a.jobs or (min(8, ncpu) if a.tier == "quick" else min(14, ncpu))
+    # 8 in both tiers: with 12-14 parallel harnesses kani-driver itself (which parses CBMC's output in-process, under
+    # the same RLIMIT_AS as its children) failed with "memory allocation failed" on the 432-harness list family
+    jobs = a.jobs or min(8, ncpu)
     mem_gb = 14
     tag = f"{prop}-{a.tier}" + os.environ.get("VERIF_TARGET_SUFFIX", "")
     t0 = time.time()
